@@ -11,7 +11,7 @@ from torch.distributions import Distribution, Normal
 
 from .. import settings
 from ..constraints import Interval
-from ..distributions import base_distributions, MultivariateNormal
+from ..distributions import base_distributions, MultitaskMultivariateNormal, MultivariateNormal
 from ..priors import Prior
 from ..utils.warnings import GPInputWarning
 from .likelihood import Likelihood
@@ -47,6 +47,9 @@ class _GaussianLikelihoodBase(Likelihood):
         # Handle NaN values if enabled
         nan_policy = settings.observation_nan_policy.value()
         if nan_policy == "mask":
+            if isinstance(input, MultitaskMultivariateNormal) and not input._interleaved:
+                # the mask below indexes the flattened n x t event row by row: that is the interleaved layout
+                input = input._as_interleaved()
             observed = settings.observation_nan_policy._get_observed(target, input.event_shape)
             input = MultivariateNormal(
                 mean=input.mean[..., observed],
@@ -86,6 +89,9 @@ class _GaussianLikelihoodBase(Likelihood):
         # Handle NaN values if enabled
         nan_policy = settings.observation_nan_policy.value()
         if nan_policy == "mask":
+            if isinstance(marginal, MultitaskMultivariateNormal) and not marginal._interleaved:
+                # the mask below indexes the flattened n x t event row by row: that is the interleaved layout
+                marginal = marginal._as_interleaved()
             observed = settings.observation_nan_policy._get_observed(observations, marginal.event_shape)
             marginal = MultivariateNormal(
                 mean=marginal.mean[..., observed],
